@@ -347,6 +347,7 @@ def run(F, rep, tier):
             rep.violation(r4, "allowed-values:" + n.split("::")[-1], "%s returns the value without checking the allowed values" % n, "%s:%s" % (h["file"], h["line"]))
     rep.floor(r4, "simple-type evaluators", nav, 8)
     allowed_values_rules(F, rep)
+    result_type_allowed_values_rule(F, rep)
     # ---------------- premises: "conforms" is FeelType::is_conformant / coerced over Value::type_of; their structural rules (C16) are re-evaluated here,
     # because a slip there changes which inputs and results pass the type check
     from props import c16
@@ -421,3 +422,27 @@ def allowed_values_rules(F, rep):
                 else:
                     rep.undecided(r6, key, "what is tested against the allowed values is neither an item nor visibly the list")
     rep.floor(r6, "allowed-values tests inside collection evaluators", nc, 8)
+
+
+def result_type_allowed_values_rule(F, rep):
+    """R11.7 (sibling agreement): an item definition is used in two ways - its *value evaluator* (builders::item_definition) decides whether an input value has the type, its
+    *type evaluator* (builders::item_definition_type) yields the FEEL type the results of decisions, knowledge models and decision services are coerced to.  The allowed values
+    are part of the declared type, so both must consult ItemDefinition::allowed_values; a side that never reads them lets values outside the allowed ones pass."""
+    rid = rep.rule("R11.7", "both uses of an item definition - the value evaluator for inputs and the type evaluator for results - consult its allowed values")
+    sides = {"inputs (value evaluator)": ME + "builders::item_definition::", "results (type evaluator)": ME + "builders::item_definition_type::"}
+    n = 0
+    for label, prefix in sorted(sides.items()):
+        fns = {name: h for name, h in F.hir.items() if name.startswith(prefix)}
+        if not fns:
+            rep.missing_anchor(rid, prefix)
+            continue
+        n += 1
+        reads = [name for name, h in fns.items() if find_hir(h["body"], lambda x: x.get("k") in ("Call", "MethodCall") and str(x.get("callee") or "").endswith("ItemDefinition::allowed_values"))]
+        key = "allowed-values:%s" % ("result-types" if "results" in label else "input-values")
+        h0 = sorted(fns.items())[0][1]
+        if reads:
+            rep.ok(rid, key, "%s: read in %s" % (label, ", ".join(sorted(r.split("::")[-1] for r in reads))[:120]))
+        else:
+            rep.violation(rid, key, "the %s of an item definition never reads its allowed values (%d functions under %s): a value outside them passes as a %s" % (
+                label.split(" (")[1].rstrip(")"), len(fns), prefix.replace(ME, ""), "result" if "results" in label else "input"), "%s:%s" % (h0["file"], h0["line"]))
+    rep.floor(rid, "uses of an item definition", n, 2)
